@@ -7,7 +7,7 @@
 // destroyed by writer->destroy(writer) exactly as its close does.
 //
 // Protocol on stdin (same as oracle/main.ml):
-//   case <id> | dev tiff|json | fix ... (ignored) |
+//   case <id> | dev tiff|json | fix ... (ignored) | file <path-hex> <hex> (ignored: pre-existing file, made by the caller) |
 //   set <uri-hex> <md: - | e | hex> <sx_p> <sx_q> <sy_p> <sy_q> <sx-hexfloat> <sy-hexfloat> |
 //   snap <k> <src-hex> <dst-hex> (copy a file aside) |
 //   start | append <k> + k "frame <w> <h> <type> <fid> <hwid> <ts_hw> <ts_acq> <data-hex|->" lines | stop | end
@@ -140,8 +140,8 @@ main(int argc, char** argv)
                 printf("NODEVICE\n");
                 return 2;
             }
-        } else if (w[0] == "fix") {
-            // model-only switch
+        } else if (w[0] == "fix" || w[0] == "file") {
+            // model-only lines ("file": the caller has already put that file on disk)
         } else if (w[0] == "set" && w.size() >= 9) {
             // exact-size heap copies so that ASan sees any read past the declared nbytes
             auto uri = unhex(w[1]);
